@@ -756,64 +756,27 @@ func init() {
 				return []Obligation{anchorMissing(rid, "lisp.Map")}
 			}
 			// accepted key types of a method: constants compared with <key>.Type that do not lead to an error return
+			// decided on the flow graph (typeflow.go): a key type K is accepted when, assuming the key's
+			// Type is K, the method reaches code it does not reach for a type it never mentions, other
+			// than a return that only refuses
 			accepted := func(u FuncUnit) (map[string]bool, bool) {
 				info := u.Pkg.TypesInfo
 				if u.Decl.Type.Params == nil || len(u.Decl.Type.Params.List) == 0 || len(u.Decl.Type.Params.List[0].Names) == 0 {
 					return nil, false
 				}
 				key := info.Defs[u.Decl.Type.Params.List[0].Names[0]]
-				isKeyType := func(e ast.Expr) bool {
-					se, ok := ast.Unparen(e).(*ast.SelectorExpr)
-					return ok && se.Sel.Name == "Type" && identObj(info, se.X) == key
-				}
-				out := map[string]bool{}
-				found := false
-				ast.Inspect(u.Decl.Body, func(n ast.Node) bool {
-					switch x := n.(type) {
-					case *ast.SwitchStmt:
-						if x.Tag == nil || !isKeyType(x.Tag) {
-							return true
-						}
-						for _, st := range x.Body.List {
-							cc := st.(*ast.CaseClause)
-							if cc.List == nil {
-								continue
-							}
-							for _, e := range cc.List {
-								if k, ok := identObjOrSel(info, e).(*types.Const); ok {
-									out[k.Name()] = true
-									found = true
+				return c.acceptedTypes(u, key, func(info *types.Info, b *cfg.Block) bool {
+					for _, n := range b.Nodes {
+						if rs, ok := n.(*ast.ReturnStmt); ok {
+							for _, r := range rs.Results {
+								if c.isErrorValueCall(info, r, 0) {
+									return true
 								}
 							}
-						}
-					case *ast.IfStmt:
-						// if k.Type != A && k.Type != B { return error }
-						var ks []string
-						all := true
-						for _, a := range impliedAtoms(x.Cond, true) {
-							be, ok := ast.Unparen(a.E).(*ast.BinaryExpr)
-							if !ok || !a.Positive || be.Op != token.NEQ {
-								all = false
-								continue
-							}
-							for _, pair := range [][2]ast.Expr{{be.X, be.Y}, {be.Y, be.X}} {
-								if isKeyType(pair[0]) {
-									if k, ok := identObjOrSel(info, pair[1]).(*types.Const); ok {
-										ks = append(ks, k.Name())
-									}
-								}
-							}
-						}
-						if all && len(ks) > 0 {
-							for _, k := range ks {
-								out[k] = true
-							}
-							found = true
 						}
 					}
-					return true
+					return false
 				})
-				return out, found
 			}
 			type impl struct {
 				name    string
